@@ -17,6 +17,18 @@ Tie to the code on every run (public API only: `RTFDocument(...).write_rtf`, `as
                             every later input follows a `\\page` and carries that input's own paper geometry; the
                             first input's start geometry is the document's
           * single input byte-identical; nested assembly == flat assembly (C17_nested) on the implementation
+  names   the same real files under names of a family — glob metacharacters (`t14[1].rtf`, `ae_*.rtf`, `t?.rtf`), blanks,
+          non-ASCII in both normal forms, leading dots / dashes / tildes, shell / URL / environment syntax, names that are
+          prefixes / suffixes of one another, no `.rtf` suffix — in directories named from the same family that ALSO hold
+          decoys (real rtflite files with other contents): names the listed ones match as patterns, case / blank /
+          Unicode variants, backup copies, same stems with other suffixes, pattern-instance directories; arguments
+          absolute / relative / `./` / `x/../x/`, str or pathlib.Path, through symbolic links, the same file listed
+          twice; the output path among the neighbours, its own name of the family (with its own decoys), absent or
+          pre-existing; 1..4 existing inputs, or an empty list, or missing names (absent although neighbours match it as
+          a pattern, dangling link).  Oracle: pages read back == the listed inputs' pages in argument order (a decoy's
+          page is named in the replay), single input byte-identical, FileNotFoundError / nothing written — no path of
+          the directory changed; correspondence: model `assembleIn` over the whole directory (driver op asm_fs), paths
+          other than the output unchanged (C17_others_untouched)
   calls   empty list / missing inputs (any position, several) / empty non-last file, with the output path absent or
           pre-existing: exception kind + missing list + "output untouched" vs model `assembleRtf` (driver op asm_call)
   toy     synthetic line lists NOT of the rtflite shape (no font table, font table at the end, `}` variants, blank
@@ -25,13 +37,18 @@ Tie to the code on every run (public API only: `RTFDocument(...).write_rtf`, `as
 """
 from __future__ import annotations
 
+import fnmatch
+import glob
 import hashlib
 import io
 import contextlib
+import json
 import os
 import shutil
 import struct
 import tempfile
+import unicodedata
+import urllib.parse
 import zlib
 from pathlib import Path
 
@@ -40,7 +57,10 @@ from ..common import sub_rng
 
 RULE = ("docs: 1..6 real write_rtf files per assembly drawn from a seeded pool (table/multi-section/figure × "
         "orientation × header/footer × colours × 'fcharset' in user text), random order, repeats allowed; "
-        "non-trivial = at least 2 inputs (distinct by the ordered tuple of pool indices and variant); calls: "
+        "non-trivial = at least 2 inputs (distinct by the ordered tuple of pool indices and variant); names: the pool's "
+        "files under a family of file / directory / output names (glob metacharacters, blanks, non-ASCII, leading "
+        ". - ~, shell/URL syntax, prefixes of one another) next to decoy files they would match as patterns or after a "
+        "normalisation, argument forms abs/rel/./..//Path/symlink/listed twice, ok | empty | missing scenarios; calls: "
         "missing/empty/IndexError cases with absent or pre-existing output; toy: random non-rtflite line lists")
 TRUSTED = [
     "Lean 4.33 kernel; axioms ⊆ {propext, Classical.choice, Quot.sound} (audited per theorem on every run)",
@@ -48,16 +68,24 @@ TRUSTED = [
     "harness/rtfread.py (Python RTF reader: pages, blocks, geometry) for the read-back clauses",
     "CPython text I/O: readlines() with universal newlines, writelines(), os.path.exists (the model starts from the "
     "line lists readlines() returns and ends with the list handed to writelines())",
+    "the operating system's resolution of a path string to one file (the model's `fs` parameter); the names stream "
+    "knows by construction which content every listed name denotes",
 ]
 MANIFEST = dict(
     text="Lean theorems over the model of assemble_rtf (all line lists of the rtflite shape, any number of inputs, "
          "no assumption on the body — user text may contain 'fcharset'): the written lines are exactly first file "
          "minus its last line, then \\page + everything after the font table for each later file, then the closing "
          "line; the result is one balanced top-level group when the inputs are; single input unchanged, empty list "
-         "and missing inputs write nothing; the output has the input shape again (nested = flat). Tied to the code "
+         "and missing inputs write nothing; the output has the input shape again (nested = flat); the outcome depends only on "
+         "the contents found under the listed names, in argument order (C17_reads_only_listed, C17_contents_only, "
+         "C17_decoys), and no path but the output changes (C17_others_untouched). Tied to the code "
          "on every run by assembling real write_rtf files and comparing bytes with the model, and judged by the "
          "Lean-defined oracle (closed form + brace scan) plus an independent RTF reader (pages, geometry).",
-    note="Models the REPAIRED helper (fixes/assemble-body-start.patch): on the unrepaired tree inputs whose text "
+    note="A listed input is one NAME (never a pattern): inputs, directories and output are also generated under names "
+         "with glob metacharacters, blanks, non-ASCII, leading . - ~ etc. next to decoy files whose pages must not "
+         "appear. A missing input given as pathlib.Path (outside the annotated list[str]) raises TypeError from the "
+         "message join — observed and reported, not judged. "
+         "Models the REPAIRED helper (fixes/assemble-body-start.patch): on the unrepaired tree inputs whose text "
          "contains 'fcharset' and coloured figure documents violate the property (D24). The read-back clause "
          "(pages = concatenation) is proved at line level (C17_lines/C17_block) and checked on the implementation "
          "with the Python reader; there is no Lean model of the RTF reader. A later input's colour table stays in "
@@ -317,6 +345,508 @@ def _toy_worker(case):
         shutil.rmtree(wd, ignore_errors=True)
 
 
+# ------------------------------------------------------------------ file names
+#
+# A listed input is ONE name: whatever characters it contains, it denotes the file the operating system finds under
+# exactly that name.  The `names` stream puts the inputs (and the output) under names of a family — glob
+# metacharacters, blanks, non-ASCII (both normal forms), leading dots / dashes / tildes, shell / URL / environment
+# syntax, names that are prefixes or suffixes of one another — into directories (named from the same family) that ALSO
+# hold decoys: real rtflite files with other contents under names the listed ones would match as patterns, case /
+# white-space / Unicode variants, backup copies, the same stem with other suffixes.  No page of a decoy may appear.
+
+GLOB_NAMES = ["t14[1].rtf", "ae_*.rtf", "t?.rtf", "[ab].rtf", "x[!a].rtf", "*.rtf", "tbl[0-9].rtf", "*", "t[1][2].rtf",
+              "a[b-d]?.rtf", "**.rtf", "t[[]1].rtf", "?", "t14_[ab]*.rtf", "[t]14.rtf", "report (v?).rtf",
+              "ünï[1].rtf", "t14[1]", "??.rtf", "t*", "[[]draft].rtf", "a[]]b.rtf"]
+ODD_NAMES = ["my table.rtf", " lead.rtf", "trail .rtf", "trail.rtf ", "tïtle_表.rtf", "café.rtf",
+             "café.rtf", "ﬁnal.rtf", ".hidden.rtf", ".rtf", "-o.rtf", "--help", "~tmp.rtf", "~", "t14.rtf~",
+             "T14.RTF", "t14.rtf.bak", "t14", "t14.rtf.rtf", "a, b.rtf", "a;b.rtf", "a&b.rtf", "a|b.rtf", "a'b.rtf",
+             'a"b.rtf', "a\\b.rtf", "a\\*.rtf", "$HOME.rtf", "${x}.rtf", "%TEMP%.rtf", "a%20b.rtf", "a%2Ab.rtf",
+             "{a,b}.rtf", "#t14.rtf#", "t14 (copy).rtf", "t14(1).rtf", "a\tb.rtf", "a\nb.rtf", "...", "t14.", "0",
+             "x" * 180 + ".rtf", "‮t14.rtf", "t14 .rtf", "\U0001f4c4.rtf"]
+PLAIN_NAMES = ["t14.rtf", "t1.rtf", "t141.rtf", "t15.rtf", "ae.rtf", "ae_.rtf", "table.rtf", "a.rtf", "b.rtf", "ta.rtf"]
+DIR_NAMES = ["", "", "", "sub", "out[1]", "my dir", "d*", "données", ".hid", "-d", "~", "a?", "tlf.rtf", "[x]", "t14",
+             "$d", "x y[0-9]"]
+OUT_PLAIN = ["combined.rtf", "out.rtf", "all.rtf"]
+
+
+def has_magic(name):
+    return any(c in name for c in "*?[")
+
+
+def _bracket_end(s, i):
+    j = i + 1
+    if j < len(s) and s[j] == "!":
+        j += 1
+    if j < len(s) and s[j] == "]":
+        j += 1
+    return s.find("]", j)
+
+
+def pattern_instances(name, rng, tries=8):
+    """other names that `name` matches when read as a glob pattern"""
+    out = set()
+    for _ in range(tries):
+        i, buf = 0, []
+        while i < len(name):
+            c = name[i]
+            if c == "*":
+                buf.append(rng.choice(["", "x", "12", "_old", "1"]))
+            elif c == "?":
+                buf.append(rng.choice("a1_x"))
+            elif c == "[" and _bracket_end(name, i) > 0:
+                j = _bracket_end(name, i)
+                expr = name[i:j + 1]
+                cands = [ch for ch in "ab1cdt023xX[]!-_" if fnmatch.fnmatchcase(ch, expr)]
+                buf.append(rng.choice(cands) if cands else expr)
+                i = j
+            else:
+                buf.append(c)
+            i += 1
+        cand = "".join(buf)
+        if cand != name and cand not in ("", ".", "..") and "/" not in cand and fnmatch.fnmatchcase(cand, name):
+            out.add(cand)
+    return sorted(out)
+
+
+def variant_decoys(name):
+    """(label, name') for names a careless normalisation / neighbour search would confuse with `name`"""
+    stem, ext = os.path.splitext(name)
+    v = []
+
+    def add(lbl, n):
+        if n and n != name and "/" not in n and "\0" not in n and n not in (".", "..") and len(n.encode()) < 250:
+            v.append((lbl, n))
+    add("stripped", name.strip())
+    add("stripped", stem.strip() + ext)
+    add("case", name.lower())
+    add("case", name.upper())
+    add("case", stem + ext.upper())
+    for form in ("NFC", "NFD", "NFKC"):
+        add("unicode-form", unicodedata.normalize(form, name))
+    for suf in (".bak", "~", ".orig", ".rtf", ".tmp", ".1"):
+        add("backup", name + suf)
+    add("backup", "#" + name + "#")
+    add("backup", stem + " (copy)" + ext)
+    add("backup", "Copy of " + name)
+    add("backup", stem + "(1)" + ext)
+    add("other-suffix", stem + ".docx")
+    add("other-suffix", stem + ".txt")
+    add("other-suffix", stem + ".rt")
+    add("other-suffix", stem)
+    add("prefix-sibling", stem[:-1] + ext)
+    add("prefix-sibling", stem[1:] + ext)
+    add("prefix-sibling", stem + "1" + ext)
+    add("prefix-sibling", "x" + name)
+    add("prefix-sibling", name + "x")
+    add("expanded", urllib.parse.unquote(name))
+    add("expanded", glob.escape(name))
+    add("expanded", name.replace("\\", ""))
+    add("expanded", name.replace("[", "").replace("]", ""))
+    add("expanded", name.lstrip("-~."))
+    return v
+
+
+def name_features(name):
+    f = []
+    if has_magic(name):
+        f.append("glob-magic")
+    if any(c.isspace() for c in name):
+        f.append("white-space")
+    if any(ord(c) > 127 for c in name):
+        f.append("non-ascii")
+    if name[:1] in ".-~":
+        f.append("leading-" + {".": "dot", "-": "dash", "~": "tilde"}[name[:1]])
+    if any(c in name for c in "$%{}#&|;'\"\\,"):
+        f.append("shell-or-url-syntax")
+    return f or ["plain"]
+
+
+def gen_names(rng, docs_in, docs_decoy):
+    """one self-contained directory scene; docs_* are pool indices (contents)"""
+    files, links, feats = {}, {}, []       # rel → doc ; rel → target rel
+    decoys = {}                            # rel → label
+    taken = set()
+    dirs = []
+    for _ in range(rng.choice([1, 1, 2])):
+        d = rng.choice(DIR_NAMES)
+        if d not in dirs:
+            dirs.append(d)
+    taken.update(d for d in dirs if d)
+    pool_in = list(docs_in)
+    rng.shuffle(pool_in)
+
+    def rel(d, n):
+        return f"{d}/{n}" if d else n
+
+    def pick_name(d, weights=(45, 35, 20)):
+        for _ in range(40):
+            fam = rng.choices([GLOB_NAMES, ODD_NAMES, PLAIN_NAMES], weights)[0]
+            n = rng.choice(fam)
+            if rel(d, n) not in taken:
+                return n
+        return f"in{len(taken)}.rtf"
+
+    def decoy_doc():
+        for _ in range(50):
+            k = rng.choice(docs_decoy)
+            if k not in in_docs:
+                return k
+        return None
+
+    def add_decoys(d, n, always_instance=True):
+        inst = pattern_instances(n, rng)
+        rng.shuffle(inst)
+        var = variant_decoys(n)
+        rng.shuffle(var)
+        chosen = [("pattern-instance", x) for x in inst[:rng.choice([1, 2, 3])]] + var[:rng.choice([1, 2, 3, 4])]
+        for lbl, dn in chosen:
+            r = rel(d, dn)
+            k = decoy_doc()
+            if r in taken or k is None:
+                continue
+            taken.add(r)
+            files[r] = k
+            decoys[r] = lbl
+
+    n = rng.choice([1, 1, 2, 2, 2, 3, 3, 4])
+    in_docs = set(pool_in[:n])
+    inputs = []
+    for i in range(n):
+        if i > 0 and rng.random() < 0.15:          # the same file listed again (any form)
+            prev = rng.choice(inputs)
+            ref = prev["ref"]
+            if ref in links and rng.random() < 0.5:  # once through the link, once directly
+                ref = links[ref]
+                feats.append("input:listed-through-symlink-and-directly")
+            inputs.append(dict(ref=ref, doc=prev["doc"]))
+            feats.append("input:listed-twice")
+            continue
+        d = rng.choice(dirs)
+        nm = pick_name(d)
+        r = rel(d, nm)
+        taken.add(r)
+        files[r] = pool_in[i]
+        ref = r
+        if rng.random() < 0.18:                     # listed through a symbolic link whose own name is of the family
+            ld = rng.choice(dirs)
+            ln = pick_name(ld)
+            lr = rel(ld, ln)
+            taken.add(lr)
+            links[lr] = r
+            ref = lr
+            feats.append("input:symlink")
+            add_decoys(ld, ln)
+        inputs.append(dict(ref=ref, doc=pool_in[i]))
+        add_decoys(d, nm)
+    # directories the inputs' directories match as patterns, holding files with the inputs' base names
+    for d in dirs:
+        if d and has_magic(d):
+            for dd in pattern_instances(d, rng)[:1]:
+                if dd in taken:
+                    continue
+                taken.add(dd)
+                for r in [r for r in list(files) + list(links) if os.path.dirname(r) == d and r not in decoys]:
+                    k = decoy_doc()
+                    if k is not None:
+                        files[rel(dd, os.path.basename(r))] = k
+                        decoys[rel(dd, os.path.basename(r))] = "pattern-instance-directory"
+                        taken.add(rel(dd, os.path.basename(r)))
+    # output path: among the inputs' neighbours, its name of the family as well
+    od = rng.choice(dirs) if rng.random() < 0.75 else ""
+    for _ in range(40):
+        on = rng.choice(OUT_PLAIN) if rng.random() < 0.45 else rng.choice(GLOB_NAMES + ODD_NAMES)
+        if rel(od, on) not in taken:
+            break
+    else:
+        on = f"out{len(taken)}.rtf"
+    out_rel = rel(od, on)
+    taken.add(out_rel)
+    add_decoys(od, on)
+    # scenario
+    r = rng.random()
+    scenario = "ok"
+    if r < 0.06:
+        scenario = "empty"
+        inputs = []
+    elif r < 0.30:
+        scenario = "missing"
+        for i in rng.sample(range(len(inputs)), rng.choice([1, 1, 2]) if len(inputs) > 1 else 1):
+            ref = inputs[i]["ref"]
+            if ref in links and rng.random() < 0.6:
+                files.pop(links[ref], None)          # dangling symbolic link (its target is gone)
+                feats.append("missing:dangling-symlink")
+            else:
+                links.pop(ref, None)                 # nothing under that name
+                files.pop(ref, None)
+                feats.append("missing:name-absent")
+            if has_magic(os.path.basename(ref)) and any(
+                    os.path.dirname(q) == os.path.dirname(ref)
+                    and fnmatch.fnmatchcase(os.path.basename(q), os.path.basename(ref)) for q in files):
+                feats.append("missing:name-matches-existing-neighbours-as-pattern")
+        for x in inputs:                             # what each listed name resolves to now
+            tgt = links.get(x["ref"], x["ref"])
+            x["doc"] = files.get(tgt)
+    any_missing = any(x["doc"] is None for x in inputs)
+    for x in inputs:
+        x["form"] = rng.choices(["abs", "rel", "dot", "dotdot"], (40, 30, 15, 15))[0]
+        # annotated type is list[str]; a missing input given as Path raises TypeError in the message join (reported)
+        x["path"] = (not any_missing) and rng.random() < 0.25
+    out = dict(rel=out_rel, form=rng.choices(["abs", "rel", "dot", "dotdot"], (40, 30, 15, 15))[0],
+               path=rng.random() < 0.25, preexist=rng.random() < 0.3)
+    return dict(level="names", scenario=scenario, dirs=[d for d in dirs if d],
+                files=[dict(rel=k, doc=v) for k, v in files.items()],
+                links=[dict(rel=k, to=v) for k, v in links.items()],
+                decoys=decoys, inputs=inputs, out=out, features=sorted(set(feats)))
+
+
+def _arg(root, ref, form, as_path):
+    if form == "abs":
+        s = os.path.join(root, ref)
+    elif form == "rel":
+        s = ref
+    elif form == "dot":
+        s = "./" + ref
+    else:
+        head, _, tail = ref.partition("/")
+        s = (head + "/../" + ref) if tail else ("../" + os.path.basename(root) + "/" + ref)
+    return Path(s) if as_path else s
+
+
+def _snapshot(root):
+    snap = {}
+    for dp, dns, fns in os.walk(root):
+        for nm in dns + fns:
+            p = os.path.join(dp, nm)
+            r = os.path.relpath(p, root)
+            if os.path.islink(p):
+                snap[r] = "L:" + os.readlink(p)
+            elif os.path.isdir(p):
+                snap[r] = "D"
+            else:
+                st = os.stat(p)
+                with open(p, "rb") as f:
+                    snap[r] = f"F:{hashlib.sha1(f.read()).hexdigest()[:16]}:{st.st_ino}:{st.st_mtime_ns}"
+    return snap
+
+
+def _names_worker(case):
+    """build the directory scene from pool files (case['_pool']: doc index → path), call the real assemble_rtf with
+    the argument forms of the case (cwd = the scene's root), observe output and every other file"""
+    from rtflite import assemble_rtf
+
+    pool = case["_pool"]
+    root = tempfile.mkdtemp(prefix="rtfv_c17nm_")
+    cwd = os.getcwd()
+    try:
+        for f in case["files"]:
+            p = os.path.join(root, f["rel"])
+            os.makedirs(os.path.dirname(p), exist_ok=True)
+            shutil.copyfile(pool[f["doc"]], p)
+        for d in case.get("dirs", []):
+            os.makedirs(os.path.join(root, d), exist_ok=True)
+        for l in case["links"]:
+            p = os.path.join(root, l["rel"])
+            os.makedirs(os.path.dirname(p), exist_ok=True)
+            os.symlink(os.path.relpath(os.path.join(root, l["to"]), os.path.dirname(p)), p)
+        o = case["out"]
+        out_abs = os.path.join(root, o["rel"])
+        os.makedirs(os.path.dirname(out_abs), exist_ok=True)
+        if o["preexist"]:
+            Path(out_abs).write_text(SENTINEL, encoding="utf-8")
+        before = _snapshot(root)
+        args = [_arg(root, x["ref"], x["form"], x["path"]) for x in case["inputs"]]
+        out_arg = _arg(root, o["rel"], o["form"], o["path"])
+        exc = None
+        os.chdir(root)
+        try:
+            ret = assemble_rtf(list(args), out_arg)
+            if ret is not None:
+                exc = dict(kind="returned-non-None", msg=repr(ret)[:80])
+        except Exception as e:  # noqa: BLE001
+            exc = dict(kind=type(e).__name__, msg=str(e)[:2000])
+        finally:
+            os.chdir(cwd)
+        after = _snapshot(root)
+        exists = os.path.lexists(out_abs)
+        text = read_raw(out_abs) if os.path.isfile(out_abs) else None
+        changed = sorted(r for r in set(before) | set(after) if r != o["rel"] and before.get(r) != after.get(r))
+        res = dict(exc=exc, exists=exists, text=text, untouched=before.get(o["rel"]) == after.get(o["rel"]),
+                   changed=changed, root=root, args=[os.fspath(a) for a in args], out_arg=os.fspath(out_arg))
+        if text is not None and exc is None and text != SENTINEL:
+            try:
+                res["summary"] = doc_summary(Path(out_abs).read_bytes())
+            except rtfread.RtfError as e:
+                res["unreadable"] = str(e)
+        return res
+    finally:
+        os.chdir(cwd)
+        shutil.rmtree(root, ignore_errors=True)
+
+
+def names_requests(case, ob, lines):
+    """driver requests of one names case: the call over the whole directory (asm_fs) and, when every listed input
+    exists, the line-level oracle (asm_lines)"""
+    root = ob["root"]
+    names, contents = [], []
+    for x, a in zip(case["inputs"], ob["args"]):
+        if x["doc"] is not None:
+            names.append(a)
+            contents.append(lines[x["doc"]])
+    for f in case["files"]:                     # every file of the scene, decoys included, under its absolute name
+        names.append(os.path.join(root, f["rel"]))
+        contents.append(lines[f["doc"]])
+    observed = ob["text"] if ob["exc"] is None and ob["text"] is not None and ob["text"] != SENTINEL else None
+    reqs = [dict(op="asm_fs", names=names, contents=contents, inputs=ob["args"], out=ob["out_arg"], observed=observed)]
+    if case["inputs"] and all(x["doc"] is not None for x in case["inputs"]):
+        reqs.append(dict(op="asm_lines", files=[lines[x["doc"]] for x in case["inputs"]], observed=ob["text"] or ""))
+    return reqs
+
+
+def judge_names(res, case, ob, drv, sums, lines):
+    """drv: answers to names_requests; sums/lines: doc index → reader summary / line list"""
+    fsr = drv[0]
+    kind = ob["exc"]["kind"] if ob["exc"] else "returned"
+    inputs = case["inputs"]
+    where = (f" [arguments {ob['args']} → {ob['out_arg']!r}; the directory also holds "
+             f"{sorted(case['decoys'])[:12]}]")
+    nowrite = (not inputs) or any(x["doc"] is None for x in inputs)
+    if nowrite:
+        if not inputs:
+            if kind != "returned":
+                res.fail(case, f"empty input list raised {ob['exc']}")
+                return
+        elif kind != "FileNotFoundError":
+            missing = [a for x, a in zip(inputs, ob["args"]) if x["doc"] is None]
+            res.fail(case, f"missing input {missing} did not raise FileNotFoundError (got {kind})" + where)
+            return
+        if not ob["untouched"] or ob["changed"]:
+            res.fail(case, "something was written although nothing may be: output untouched="
+                           f"{ob['untouched']}, other paths changed={ob['changed']}" + where)
+            return
+    else:
+        if ob["exc"] is not None:
+            res.fail(case, f"assemble_rtf raised {ob['exc']} on existing rtflite files" + where)
+            return
+        if ob["text"] is None:
+            res.fail(case, f"no output file at the requested path {ob['out_arg']!r}" + where)
+            return
+        lin = drv[1]
+        if not all(lin["shaped"]):
+            res.disagree(case, "an input written by write_rtf does not satisfy rtfliteShaped")
+            return
+        n = len(inputs)
+        summaries = [sums[x["doc"]] for x in inputs]
+        jcase = dict(case, nested=None)
+        if n == 1:
+            jcase["_single_text"] = "".join(lines[inputs[0]["doc"]])
+        t = common.Result("C17", "quick", 0)
+        if not lin["obs_wellformed"] and "unreadable" not in ob:
+            t.fail(case, "assembled file is not one balanced top-level group closing in its last line")
+        else:
+            _judge_readback(t, jcase, ob, summaries, n)
+        if t.failures:
+            why = t.failures[0][1]
+            # whose pages are there instead?
+            if "summary" in ob:
+                exp = [pg for s_ in summaries for pg in s_["pages"]]
+                got = ob["summary"]["pages"]
+                i = next((i for i, (a, b) in enumerate(zip(got, exp)) if a != b), min(len(got), len(exp)))
+                if i < len(got):
+                    listed = {x["ref"] for x in inputs} | {l["to"] for l in case["links"] if l["rel"] in {x["ref"] for x in inputs}}
+                    hits = [f for f in case["files"] if f["rel"] not in listed and got[i] in sums[f["doc"]]["pages"]]
+                    if hits:
+                        f = hits[0]
+                        why += (f"; page {i + 1} of the output is page {sums[f['doc']]['pages'].index(got[i]) + 1} of "
+                                + " / ".join(f"{h['rel']!r} ({case['decoys'].get(h['rel'], 'neighbour')})" for h in hits[:4])
+                                + " — not a listed file")
+            res.fail(case, why + where)
+            return
+        if ob["changed"]:
+            res.disagree(case, f"paths other than the output changed: {ob['changed']} (C17_others_untouched)" + where)
+            return
+        if lin["obs_is_spec"] is not True:
+            res.disagree(case, "assembled bytes differ from the closed form of C17_lines" + where)
+            return
+    # correspondence with the model of the call over the whole directory
+    m = fsr["result"]
+    if kind != m["kind"]:
+        res.disagree(case, f"outcome {kind} ({ob['exc']}) != model {m['kind']}" + where)
+    elif kind == "FileNotFoundError" and ob["exc"]["msg"] != "Missing files: " + ", ".join(m["missing"]):
+        res.disagree(case, f"message {ob['exc']['msg']!r} != model's missing list {m['missing']}")
+    elif fsr["written_none"]:
+        if not ob["untouched"] or ob["changed"]:
+            res.disagree(case, "model writes nothing but the directory changed")
+    elif not fsr["written_is_observed"]:
+        res.disagree(case, "bytes written differ from the model's lines over the directory" + where)
+
+
+def names_full_case(case, specs):
+    used = sorted({f["doc"] for f in case["files"]})
+    return dict({k: v for k, v in case.items() if not k.startswith("_")}, docs={str(k): specs[k] for k in used})
+
+
+def count_names(res, case, ob):
+    res.count(f"names:scenario:{case['scenario']}")
+    res.count(f"names:inputs:{len(case['inputs'])}")
+    for x in case["inputs"]:
+        for f in name_features(os.path.basename(x["ref"])):
+            res.count("names:input-name:" + f)
+        d = os.path.dirname(x["ref"])
+        if d:
+            for f in name_features(d):
+                res.count("names:input-dir:" + f)
+        res.count("names:arg:" + x["form"] + ("-Path" if x["path"] else "-str"))
+    for f in case["features"]:
+        res.count("names:" + f)
+    for lbl in set(case["decoys"].values()):
+        res.count("names:decoy:" + lbl)
+    o = case["out"]
+    for f in name_features(os.path.basename(o["rel"])):
+        res.count("names:output-name:" + f)
+    if any(os.path.dirname(x["ref"]) == os.path.dirname(o["rel"]) for x in case["inputs"]):
+        res.count("names:output:in-a-directory-of-the-inputs")
+    if o["preexist"]:
+        res.count("names:output:pre-existing")
+    res.count("names:outcome:" + (ob["exc"]["kind"] if ob["exc"] else "returned"))
+
+
+# annotated `input_files: list[str]`; a pathlib.Path works for existing inputs (os.path.exists / open accept it) but
+# the message of the missing-input error is built with ', '.join(missing_files) — observed, reported, not judged
+PATH_PROBE = dict(level="names", scenario="probe", dirs=[], files=[], links=[], decoys={}, features=[],
+                  inputs=[dict(ref="nope.rtf", doc=None, form="abs", path=True)],
+                  out=dict(rel="out.rtf", form="abs", path=False, preexist=False))
+
+
+def run_names(res, tier, pool):
+    ncases = 400 if tier == "quick" else 4000
+    good, paths, lines, st, specs = pool["good"], pool["paths"], pool["lines"], pool["st"], pool["specs"]
+    sizes = sorted(good, key=lambda k: sum(map(len, lines[k])))
+    docs_decoy = sizes[:max(8, len(sizes) // 2)]           # decoys: the smaller half (request size), any kind
+    sums = {k: st[k]["summary"] for k in good}
+    cases = [gen_names(sub_rng(res.seed, "c17names", i), good, docs_decoy) for i in range(ncases)]
+    ppool = {k: paths[k] for k in good}
+    obs = common.pool_map(_names_worker, [dict(c, _pool=ppool) for c in cases] + [dict(PATH_PROBE, _pool={})], chunksize=4)
+    probe = obs[len(cases)]
+    obs = obs[:len(cases)]
+    if probe["exc"] and probe["exc"]["kind"] != "FileNotFoundError":
+        res.count("observed:missing-input-given-as-pathlib.Path-raises-" + probe["exc"]["kind"])
+        res.notes.append("a missing input given as pathlib.Path (outside the annotated list[str]) raises "
+                         f"{probe['exc']['kind']}: {probe['exc']['msg'][:80]} — nothing is written; not judged")
+    reqs, spans = [], []
+    for c, o in zip(cases, obs):
+        r = names_requests(c, o, lines)
+        spans.append((len(reqs), len(reqs) + len(r)))
+        reqs += r
+    drv = driver_parallel(reqs, chunk=24)
+    for c, o, (a, b) in zip(cases, obs, spans):
+        full = names_full_case(c, specs)
+        nt = ("names", tuple((x["ref"], x["form"], x["path"]) for x in c["inputs"]), c["out"]["rel"], c["scenario"])
+        res.case(full, nt if c["inputs"] else None)
+        count_names(res, c, o)
+        res.corr_checked += 1
+        judge_names(res, full, o, drv[a:b], sums, lines)
+
+
 # ------------------------------------------------------------------ judging
 
 def judge_doc(res, case, ob, drv, summaries):
@@ -556,7 +1086,7 @@ def run_docs(res, tier, tmp):
             res.count("observed:colour-table-group-of-later-input-kept-in-body")
         res.corr_checked += 1
         judge_doc(res, full, o, d, [st[k]["summary"] for k in c["order"]])
-    return [("".join(lines[k])) for k in good[:6]]
+    return [("".join(lines[k])) for k in good[:6]], dict(good=good, paths=paths, lines=lines, st=st, specs=specs)
 
 
 def driver_parallel(reqs, chunk=40):
@@ -607,10 +1137,13 @@ def run(res: common.Result, build) -> int:
     try:
         check_spaces(res)
         run_corpus(res, tmp)
-        sample_texts = run_docs(res, res.tier, tmp)
+        sample_texts, pool = run_docs(res, res.tier, tmp)
+        run_names(res, res.tier, pool)
         run_calls(res, res.tier, sample_texts)
         if res.failures:
             shrink_doc_failure(res, tmp)
+            if res.failures[0][0].get("level") == "names" or not any(c.get("level") == "doc" for c, _ in res.failures):
+                shrink_names_failure(res, pool)
     finally:
         shutil.rmtree(tmp, ignore_errors=True)
     return common.finish(
@@ -705,6 +1238,105 @@ def shrink_doc_failure(res, tmp):
     res.failures.insert(0, res.failures.pop(idx))
 
 
+def _eval_names_child(args):
+    """replay: write the documents of the scene with the public write_rtf, then the same worker as the run"""
+    case, tmp = args
+    pool, lines, sums = {}, {}, {}
+    for k, spec in case["docs"].items():
+        p = os.path.join(tmp, f"pool{k}.rtf")
+        st = _write_doc((spec, p))
+        if st["status"] != "ok":
+            return dict(error=f"cannot rebuild document {k}: {st}")
+        pool[int(k)], lines[int(k)], sums[int(k)] = p, read_lines(p), st["summary"]
+    return dict(ob=_names_worker(dict(case, _pool=pool)), lines=lines, sums=sums)
+
+
+def eval_names_case(res, case, tmp, verbose=False):
+    r = _in_child(_eval_names_child, (case, str(tmp)))
+    if "error" in r:
+        raise common.MachineryError(r["error"])
+    ob, lines, sums = r["ob"], r["lines"], r["sums"]
+    drv = common.driver_batch(names_requests(case, ob, lines))
+    if verbose:
+        print("directory :", sorted(f["rel"] for f in case["files"]), "links", case["links"])
+        print("arguments :", ob["args"], "→", ob["out_arg"])
+        print("exception :", ob["exc"], " output exists:", ob["exists"], " other paths changed:", ob["changed"])
+        print("model     :", drv[0]["result"], "bytes equal the model's:", drv[0]["written_is_observed"])
+        if "summary" in ob:
+            print("reader    : pages", len(ob["summary"]["pages"]), "expected",
+                  sum(len(sums[x["doc"]]["pages"]) for x in case["inputs"] if x["doc"] is not None))
+    judge_names(res, case, ob, drv, sums, lines)
+
+
+def _names_eval_pool(case, pool):
+    """run-time evaluation of a (shrunk) names case against the pool files still on disk"""
+    ob = _in_child(_names_worker, dict(case, _pool={k: pool["paths"][k] for k in pool["good"]}))
+    drv = common.driver_batch(names_requests(case, ob, pool["lines"]))
+    t = common.Result("C17", "quick", 0)
+    judge_names(t, case, ob, drv, {k: pool["st"][k]["summary"] for k in pool["good"]}, pool["lines"])
+    return t
+
+
+def shrink_names_failure(res, pool, budget=40):
+    """replace the first names-level failure by a smaller failing scene: fewer inputs, plain argument forms, only the
+    neighbours that matter"""
+    for idx, (case, why) in enumerate(res.failures):
+        if case.get("level") == "names" and "note" not in case:      # corpus scenes carry their own documents: kept as is
+            break
+    else:
+        return
+    cur = {k: v for k, v in case.items() if k != "docs"}
+    cur_why = why
+    used = [0]
+
+    def fails(c):
+        if used[0] >= budget:
+            return None
+        used[0] += 1
+        try:
+            t = _names_eval_pool(c, pool)
+        except Exception:  # noqa: BLE001
+            return None
+        return t.failures[0][1] if t.failures else None
+
+    def attempt(c):
+        nonlocal cur, cur_why
+        w = fails(c)
+        if w:
+            cur, cur_why = c, w
+            return True
+        return False
+    # fewer inputs: singles first, then dropping one at a time
+    if len(cur["inputs"]) > 1:
+        for i in range(len(cur["inputs"])):
+            if attempt(dict(cur, inputs=[cur["inputs"][i]])):
+                break
+        else:
+            i = 0
+            while len(cur["inputs"]) > 1 and i < len(cur["inputs"]):
+                if not attempt(dict(cur, inputs=cur["inputs"][:i] + cur["inputs"][i + 1:])):
+                    i += 1
+    # plain forms
+    attempt(dict(cur, inputs=[dict(x, form="abs", path=False) for x in cur["inputs"]],
+                 out=dict(cur["out"], form="abs", path=False, preexist=False)))
+    # only the neighbours that matter
+    needed = {x["ref"] for x in cur["inputs"]} | {l["to"] for l in cur["links"]}
+    drop = [f for f in cur["files"] if f["rel"] not in needed]
+    attempt(dict(cur, files=[f for f in cur["files"] if f["rel"] in needed],
+                 decoys={}))
+    for f in drop:
+        if f not in cur["files"]:
+            break
+        attempt(dict(cur, files=[g for g in cur["files"] if g is not f],
+                     decoys={k: v for k, v in cur["decoys"].items() if k != f["rel"]}))
+    live = {x["ref"] for x in cur["inputs"]}
+    attempt(dict(cur, links=[l for l in cur["links"] if l["rel"] in live]))
+    full = names_full_case(cur, pool["specs"])
+    full["shrunk"] = True
+    res.failures.pop(idx)
+    res.failures.insert(0, (full, cur_why))
+
+
 def run_corpus(res, tmp):
     d = common.CORPUS / "C17"
     if not d.exists():
@@ -719,6 +1351,11 @@ def run_corpus(res, tmp):
             res.count("corpus")
             res.corr_checked += 1
             eval_doc_case(res, case, tmp)
+        elif case.get("level") == "names":
+            res.case(case, ("corpus", f.name))
+            res.count("corpus")
+            res.corr_checked += 1
+            eval_names_case(res, case, tmp)
 
 
 # ------------------------------------------------------------------ replay
@@ -730,6 +1367,8 @@ def replay(payload) -> int:
     try:
         if case.get("level") == "doc":
             eval_doc_case(res, case, tmp, verbose=True)
+        elif case.get("level") == "names":
+            eval_names_case(res, case, tmp, verbose=True)
         elif case.get("level") in ("toy", "call"):
             ob = _in_child(_toy_worker, case)
             d = common.driver_batch([dict(op="asm_call", paths=ob["paths"], contents=ob["contents"], echo=True,
